@@ -4,7 +4,12 @@
    The registers R[1..n] are kept as a queue: processing R[i] takes it from the front and
    puts the new value at the back, so after n steps the queue is R[1..n] again and the
    step counter t = n*j + i simply runs 1, 2, ..., 6n.  Unwrapping runs the inverse steps
-   with t = 6n, ..., 1, taking from the back and putting at the front. *)
+   with t = 6n, ..., 1, taking from the back and putting at the front.
+
+   Two forms of the theorem: [kw_roundtrip] assumes [D (E b) = b] for every 16-element
+   block; [kw_roundtrip_bytes] assumes it only for blocks of bytes (< 256), which is all a
+   real cipher such as AES can satisfy on [list N], and asks for a byte-string key in
+   return. *)
 From Kit Require Import Lib.Base.
 From Kit Require Import Crypto.Words Crypto.AES.
 
@@ -54,83 +59,123 @@ Section KW.
       end
     else None.
 
-  Hypothesis DE : forall b, length b = 16 -> D (E b) = b.
-  Hypothesis E_length : forall b, length (E b) = 16.
+  (* One proof for both forms of the theorem: [okb] says which list elements are valid
+     ([byte_ok], or everything). *)
+  Section Generic.
+    Variable okb : N -> bool.
+    Let ok (l : list N) : Prop := forallb okb l = true.
 
-  Definition kw_inv (n : nat) (st : kw_state) : Prop :=
-    length (fst st) = 8 /\ Forall (fun r => length r = 8) (snd st) /\ length (snd st) = n.
+    Hypothesis okb_xor : forall x y, okb x = true -> okb y = true -> okb (N.lxor x y) = true.
+    Hypothesis ok_counter : forall t, ok (be64 t).
+    Hypothesis ok_iv : ok kw_iv.
+    Hypothesis DE : forall b, length b = 16 -> ok b -> D (E b) = b.
+    Hypothesis E_length : forall b, length (E b) = 16.
+    Hypothesis E_ok : forall b, ok (E b).
 
-  Lemma be64_length t : length (be64 t) = 8.
-  Proof. reflexivity. Qed.
+    Definition kw_inv (n : nat) (st : kw_state) : Prop :=
+      (length (fst st) = 8 /\ ok (fst st)) /\
+      Forall (fun r => length r = 8 /\ ok r) (snd st) /\ length (snd st) = n.
 
-  Lemma kw_step_inv n st t : kw_inv n st -> kw_inv n (kw_step st t).
-  Proof.
-    destruct st as [a [|r rest]]; intros (Ha & Hrs & Hn); cbn [kw_step fst snd] in *.
-    - repeat split; assumption.
-    - pose proof (E_length (a ++ r)) as Hb.
-      repeat split; cbn [fst snd].
-      + rewrite xor_bytes_length, firstn_length, be64_length. lia.
-      + apply Forall_app; split; [now inversion Hrs|].
-        constructor; [|constructor]. rewrite skipn_length. lia.
-      + rewrite app_length. cbn [length] in *. lia.
-  Qed.
+    Lemma be64_length t : length (be64 t) = 8.
+    Proof. reflexivity. Qed.
 
-  Lemma kw_unstep_step n st t : kw_inv n st -> kw_unstep (kw_step st t) t = st.
-  Proof.
-    destruct st as [a [|r rest]]; intros (Ha & Hrs & Hn); cbn [kw_step fst snd] in *.
-    - reflexivity.
-    - cbn [kw_unstep]. rewrite rev_unit.
-      rewrite xor_bytes_involutive by (rewrite firstn_length, be64_length; lia).
-      rewrite firstn_skipn.
-      assert (Hr : length r = 8) by now inversion Hrs.
-      rewrite DE by (rewrite app_length; lia).
-      rewrite <- Ha at 1. rewrite firstn_app, Nat.sub_diag, firstn_all, firstn_O, app_nil_r.
-      rewrite <- Ha at 1. rewrite skipn_app, Nat.sub_diag, skipn_all, skipn_O. cbn [app].
-      rewrite rev_involutive. reflexivity.
-  Qed.
+    Lemma kw_step_inv n st t : kw_inv n st -> kw_inv n (kw_step st t).
+    Proof.
+      destruct st as [a [|r rest]]; intros ((Ha & Hoka) & Hrs & Hn); cbn [kw_step fst snd] in *.
+      - repeat split; assumption.
+      - pose proof (E_length (a ++ r)) as Hb. pose proof (E_ok (a ++ r)) as Hokb.
+        repeat split; cbn [fst snd].
+        + rewrite xor_bytes_length, firstn_length, be64_length. lia.
+        + apply forallb_xor_bytes; [assumption | now apply forallb_firstn | apply ok_counter].
+        + apply Forall_app; split; [now inversion Hrs|].
+          constructor; [|constructor].
+          split; [rewrite skipn_length; lia | now apply forallb_skipn].
+        + rewrite app_length. cbn [length] in *. lia.
+    Qed.
 
-  Lemma kw_steps_inv n ts st : kw_inv n st -> kw_inv n (fold_left kw_step ts st).
-  Proof.
-    revert st; induction ts as [|t ts IH]; intros st Hst; cbn [fold_left]; [assumption|].
-    apply IH. now apply kw_step_inv.
-  Qed.
+    Lemma kw_unstep_step n st t : kw_inv n st -> kw_unstep (kw_step st t) t = st.
+    Proof.
+      destruct st as [a [|r rest]]; intros ((Ha & Hoka) & Hrs & Hn); cbn [kw_step fst snd] in *.
+      - reflexivity.
+      - cbn [kw_unstep]. rewrite rev_unit.
+        rewrite xor_bytes_involutive by (rewrite firstn_length, be64_length; lia).
+        rewrite firstn_skipn.
+        assert (Hr : length r = 8 /\ ok r) by now inversion Hrs.
+        destruct Hr as [Hr Hokr].
+        rewrite DE.
+        + rewrite <- Ha at 1. rewrite firstn_app, Nat.sub_diag, firstn_all, firstn_O, app_nil_r.
+          rewrite <- Ha at 1. rewrite skipn_app, Nat.sub_diag, skipn_all, skipn_O. cbn [app].
+          rewrite rev_involutive. reflexivity.
+        + rewrite app_length; lia.
+        + unfold ok. rewrite forallb_app. unfold ok in Hoka, Hokr. now rewrite Hoka, Hokr.
+    Qed.
 
-  Lemma kw_unsteps_steps n ts st :
-    kw_inv n st -> fold_left kw_unstep (rev ts) (fold_left kw_step ts st) = st.
-  Proof.
-    revert st; induction ts as [|t ts IH]; intros st Hst; cbn [fold_left rev]; [reflexivity|].
-    rewrite fold_left_app. rewrite IH by now apply kw_step_inv.
-    cbn [fold_left]. now apply kw_unstep_step with (n := n).
-  Qed.
+    Lemma kw_steps_inv n ts st : kw_inv n st -> kw_inv n (fold_left kw_step ts st).
+    Proof.
+      revert st; induction ts as [|t ts IH]; intros st Hst; cbn [fold_left]; [assumption|].
+      apply IH. now apply kw_step_inv.
+    Qed.
+
+    Lemma kw_unsteps_steps n ts st :
+      kw_inv n st -> fold_left kw_unstep (rev ts) (fold_left kw_step ts st) = st.
+    Proof.
+      revert st; induction ts as [|t ts IH]; intros st Hst; cbn [fold_left rev]; [reflexivity|].
+      rewrite fold_left_app. rewrite IH by now apply kw_step_inv.
+      cbn [fold_left]. now apply kw_unstep_step with (n := n).
+    Qed.
+
+    Theorem kw_roundtrip_gen cek :
+      length cek mod 8 = 0 -> 8 <= length cek -> ok cek ->
+      kw_unwrap_with (kw_wrap_with cek) = Some cek.
+    Proof.
+      intros Hmod Hlen Hokc. unfold kw_wrap_with.
+      set (rs := chunks 8 cek). set (n := length rs).
+      assert (Hrs : Forall (fun r => length r = 8) rs) by (apply chunks_Forall; [lia | assumption]).
+      assert (Hokrs : Forall (fun r => ok r) rs) by now apply forallb_chunks.
+      assert (Hcat : concat rs = cek) by (apply chunks_concat; lia).
+      assert (Hn : length cek = 8 * n).
+      { rewrite <- Hcat. now apply concat_length_const. }
+      assert (Hinv0 : kw_inv n (kw_iv, rs)).
+      { repeat split; [exact ok_iv | now apply Forall_and]. }
+      pose proof (kw_steps_inv n (kw_counters n) _ Hinv0) as Hinv.
+      pose proof (kw_unsteps_steps n (kw_counters n) _ Hinv0) as Hback.
+      destruct (fold_left kw_step (kw_counters n) (kw_iv, rs)) as [a rs'] eqn:Hfold.
+      destruct Hinv as ((Ha & _) & Hrs' & Hn'). cbn [fst snd] in Ha, Hrs', Hn'.
+      assert (Hrs'8 : Forall (fun r => length r = 8) rs').
+      { eapply Forall_impl; [|exact Hrs']. now intros r [Hr _]. }
+      unfold kw_unwrap_with.
+      assert (Hlen' : length (a ++ concat rs') = 8 + 8 * n).
+      { rewrite app_length, (concat_length_const 8) by assumption. lia. }
+      rewrite Hlen'.
+      replace ((8 + 8 * n) mod 8) with 0
+        by (symmetry; replace (8 + 8 * n) with ((1 + n) * 8) by lia; apply Nat.mod_mul; lia).
+      replace (Nat.leb 16 (8 + 8 * n)) with true by (symmetry; apply Nat.leb_le; lia).
+      cbn [Nat.eqb andb].
+      change (a ++ concat rs') with (concat (a :: rs')).
+      rewrite chunks_of_concat by (try lia; constructor; assumption).
+      rewrite Hn', Hback.
+      replace (eqb_listN kw_iv kw_iv) with true by (symmetry; apply eqb_listN_spec; reflexivity).
+      now rewrite Hcat.
+    Qed.
+  End Generic.
 
   Theorem kw_roundtrip cek :
+    (forall b, length b = 16 -> D (E b) = b) -> (forall b, length (E b) = 16) ->
     length cek mod 8 = 0 -> 8 <= length cek ->
     kw_unwrap_with (kw_wrap_with cek) = Some cek.
   Proof.
-    intros Hmod Hlen. unfold kw_wrap_with.
-    set (rs := chunks 8 cek). set (n := length rs).
-    assert (Hrs : Forall (fun r => length r = 8) rs) by (apply chunks_Forall; [lia | assumption]).
-    assert (Hcat : concat rs = cek) by (apply chunks_concat; lia).
-    assert (Hn : length cek = 8 * n).
-    { rewrite <- Hcat. now apply concat_length_const. }
-    assert (Hinv0 : kw_inv n (kw_iv, rs)) by (repeat split; [exact Hrs]).
-    pose proof (kw_steps_inv n (kw_counters n) _ Hinv0) as Hinv.
-    pose proof (kw_unsteps_steps n (kw_counters n) _ Hinv0) as Hback.
-    destruct (fold_left kw_step (kw_counters n) (kw_iv, rs)) as [a rs'] eqn:Hfold.
-    destruct Hinv as (Ha & Hrs' & Hn'). cbn [fst snd] in Ha, Hrs', Hn'.
-    unfold kw_unwrap_with.
-    assert (Hlen' : length (a ++ concat rs') = 8 + 8 * n).
-    { rewrite app_length, (concat_length_const 8) by assumption. lia. }
-    rewrite Hlen'.
-    replace ((8 + 8 * n) mod 8) with 0
-      by (symmetry; replace (8 + 8 * n) with ((1 + n) * 8) by lia; apply Nat.mod_mul; lia).
-    replace (Nat.leb 16 (8 + 8 * n)) with true by (symmetry; apply Nat.leb_le; lia).
-    cbn [Nat.eqb andb].
-    change (a ++ concat rs') with (concat (a :: rs')).
-    rewrite chunks_of_concat by (try lia; constructor; assumption).
-    rewrite Hn', Hback.
-    replace (eqb_listN kw_iv kw_iv) with true by (symmetry; apply eqb_listN_spec; reflexivity).
-    now rewrite Hcat.
+    intros DE E_length Hmod Hlen.
+    apply (kw_roundtrip_gen (fun _ => true)); auto using forallb_true.
+  Qed.
+
+  Theorem kw_roundtrip_bytes cek :
+    (forall b, length b = 16 -> bytes_ok b = true -> D (E b) = b) ->
+    (forall b, length (E b) = 16) -> (forall b, bytes_ok (E b) = true) ->
+    length cek mod 8 = 0 -> 8 <= length cek -> bytes_ok cek = true ->
+    kw_unwrap_with (kw_wrap_with cek) = Some cek.
+  Proof.
+    intros DE E_length E_ok Hmod Hlen Hokc.
+    apply (kw_roundtrip_gen byte_ok); auto using byte_ok_lxor, be64_ok.
   Qed.
 End KW.
 
@@ -139,19 +184,22 @@ Definition aes_kw_wrap (key cek : list N) : list N :=
 Definition aes_kw_unwrap (key c : list N) : option (list N) :=
   let ks := aes_expand key in kw_unwrap_with (aes_decrypt_block_ks ks) c.
 
-(* The AES instance, conditional on AES decryption inverting AES encryption under this key
-   (not proved here; the length hypothesis is discharged). *)
+(* The AES instance of [kw_roundtrip_bytes], conditional on AES decryption inverting AES
+   encryption on byte blocks under this key.  That premise is not proved in this
+   development (the KATs and the differential runs against Go test it); the length and
+   byte-range premises about AES are discharged. *)
 Corollary aes_kw_roundtrip key cek :
-  (forall b, length b = 16 ->
+  (forall b, length b = 16 -> bytes_ok b = true ->
              aes_decrypt_block_ks (aes_expand key) (aes_encrypt_block_ks (aes_expand key) b) = b) ->
-  length cek mod 8 = 0 -> 8 <= length cek ->
+  length cek mod 8 = 0 -> 8 <= length cek -> bytes_ok cek = true ->
   aes_kw_unwrap key (aes_kw_wrap key cek) = Some cek.
 Proof.
-  intros HDE Hmod Hlen. unfold aes_kw_unwrap, aes_kw_wrap.
-  apply kw_roundtrip; auto using aes_encrypt_block_ks_length.
+  intros HDE Hmod Hlen Hokc. unfold aes_kw_unwrap, aes_kw_wrap.
+  apply kw_roundtrip_bytes; auto using aes_encrypt_block_ks_length, aes_encrypt_block_ks_ok.
 Qed.
 
-(* non-vacuity of [kw_roundtrip]: the hypotheses hold for E = D = "pad/cut to 16 bytes" *)
+(* non-vacuity: the hypotheses of [kw_roundtrip] hold for E = D = "pad/cut to 16", those
+   of [kw_roundtrip_bytes] for E = D = [toy_block] *)
 Example kw_roundtrip_nonvacuous :
   let E := take_pad 16 in
   (forall b, length b = 16 -> E (E b) = b) /\ (forall b, length (E b) = 16) /\
@@ -163,4 +211,18 @@ Proof.
   - vm_compute. discriminate.
 Qed.
 
+Example kw_roundtrip_bytes_nonvacuous :
+  let E := toy_block in
+  (forall b, length b = 16 -> bytes_ok b = true -> E (E b) = b) /\
+  (forall b, length (E b) = 16) /\ (forall b, bytes_ok (E b) = true) /\
+  kw_wrap_with E (ramp 16) <> kw_iv ++ ramp 16.
+Proof.
+  repeat split.
+  - apply toy_block_involutive.
+  - apply toy_block_length.
+  - apply toy_block_ok.
+  - vm_compute. discriminate.
+Qed.
+
 Print Assumptions kw_roundtrip.
+Print Assumptions kw_roundtrip_bytes.
